@@ -254,7 +254,18 @@ impl<'de, K: Deserialize<'de> + Ord, V: Deserialize<'de>> Deserialize<'de> for I
 /// collect_str
 #[derive(Debug, Clone)] pub struct Disp(String);
 impl Serialize for Disp {
-    fn serialize<S: serde::Serializer>(&self, s: S) -> Result<S::Ok, S::Error> { s.collect_str(&self.0) }
+    fn serialize<S: serde::Serializer>(&self, s: S) -> Result<S::Ok, S::Error> {
+        // Display output written in two pieces (as `write!(f, "{}{}", a, b)` does): collect_str implementations that buffer see a seam
+        struct TwoPieces<'a>(&'a str);
+        impl fmt::Display for TwoPieces<'_> {
+            fn fmt(&self, f: &mut fmt::Formatter) -> fmt::Result {
+                let mut k = self.0.len() * 3 / 4;
+                while !self.0.is_char_boundary(k) { k -= 1 }
+                f.write_str(&self.0[.. k])?; f.write_str(&self.0[k ..])
+            }
+        }
+        s.collect_str(&TwoPieces(&self.0))
+    }
 }
 impl<'de> Deserialize<'de> for Disp {
     fn deserialize<D: serde::Deserializer<'de>>(d: D) -> Result<Self, D::Error> { String::deserialize(d).map(Disp) }
